@@ -33,6 +33,12 @@ def gate(F, R):
                 if r:
                     ok_edges.append((r[0], r[1].get(0, r[2])))
                 break
+        # ... or a plain `match handshake { Ok(x) => x, Err(e) => return Err(e) }` on the awaited value
+        for sb_, place_, adt_, ty_, t_ in discr_switches(b, adt='std::result::Result'):
+            if sb_ in b.reachable(a['ready']) and any(l[0] == 'call' and l[2] == a['poll'] for l in Origin(b).of_operand({'cp': place_})):
+                tg_ = dict((v_, x_) for v_, x_ in t_['targets'])
+                if 0 in tg_:
+                    ok_edges.append((sb_, tg_[0]))
         creates = [(bi, t) for bi, t in b.calls() if re.search(r'ServiceFactory<.*>>::create$|::create$', callee_name(t) or '') or (callee_name(t) or '').endswith('io::Dispatcher::<P, C, U, E>::new')]
         R.floor('C19.gate', 'service creations + Dispatcher::new', len(creates), 3)
         for bi, t in creates:
